@@ -115,10 +115,28 @@ def check_comparison_only(prog, ctx):
                 ctx.bad(rid, f, n, src(n), "arithmetic on a label")
             if isinstance(n, ast.Call) and src(n.func) == "hash":
                 ctx.bad(rid, f, n, src(n), "hash of a label used in the order")
+    # oddpos_dag by evaluation: the conjugate of a label sequence is the reversed sequence of conjugated labels
+    from engine.absarray import evaluator
+    from engine.minieval import Raised, Unsupported
+
     f = prog.func("symmray.fermionic_core:oddpos_dag")
-    rets = [r for r in walk_own(f.node) if isinstance(r, ast.Return)]
-    ctx.check(len(rets) == 1 and src(rets[0].value) == "tuple((r.dag for r in reversed(oddpos)))", rid, f, f.node, src(rets[0].value) if rets else "",
-              "conjugating a label sequence reverses it and conjugates each label")
+    opc = prog.cls("FermionicOperator")
+    ok, why = True, ""
+    try:
+        for labels in ([], [(1, False)], [(1, False), (2, True), (5, False)], [("a", True), ("b", True)]):
+            ev = evaluator(prog)
+            seq = tuple(ev.apply(opc, [l_, d_], {}, None) for (l_, d_) in labels)
+            out = ev.call(f, [seq])
+            got = [(o.fields["_label"], bool(o.fields["_dual"])) for o in out]
+            want = [(l_, not d_) for (l_, d_) in reversed(labels)]
+            if got != want or not isinstance(out, tuple):
+                ok, why = False, f"oddpos_dag({labels}) = {got}, expected {want}"
+                break
+    except Unsupported as e:
+        raise AnalysisError(f"oddpos_dag outside the evaluable sub-language: {e}")
+    except (Raised, KeyError, TypeError, AttributeError, IndexError, ValueError) as e:
+        ok, why = False, f"oddpos_dag fails: {type(e).__name__}: {getattr(e, 'what', e)}"
+    ctx.check(ok, rid, f, f.node, "oddpos_dag", "conjugating a label sequence reverses it and conjugates each label" + ("" if ok else f" — {why}"))
     ctx.minimum(rid, 3, "label reads + oddpos_dag")
 
 
@@ -371,7 +389,19 @@ def run(prog, ctx):
     from rules.sem_routes import check_routes
 
     ctx.guarded("R04.7", prog.func("symmray.fermionic_core:tensordot_fermionic"), check_routes, prog, ctx)
+    ctx.rule("R04.8", "abstract evaluation of the label merge itself: sorted pair-free labels, sign = parity of inversions x cross-over, pairs "
+                      "removed with a sign iff ket-then-bra, duplicates refused")
+    from rules.sem_routes import check_label_merge
+
+    ctx.guarded("R04.8", prog.func("symmray.fermionic_core:resolve_combined_oddpos"), check_label_merge, prog, ctx)
     check_total_order(prog, ctx)
     check_comparison_only(prog, ctx)
-    check_phased_sort(prog, ctx)
+    try:
+        check_phased_sort(prog, ctx)
+    except AnalysisError as e:
+        # the path rule reads the sort loop's textual form; when that form is not recognised the behaviour is decided by R04.8 (the merge
+        # evaluated directly) and R04.5-R04.7 (route independence)
+        ctx.notes.append(f"R04.3 not applicable to the current form of the label sort ({e}); R04.8 and R04.5-R04.7 decide the behaviour")
+        f_ = prog.func("symmray.fermionic_core:resolve_combined_oddpos")
+        ctx.ok("R04.3", f"{f_.file}:{f_.qualname}", "path rule not applicable to this form of the sort; decided by R04.8")
     check_resolve_everywhere(prog, ctx)
